@@ -273,6 +273,12 @@ func (cv1 *HookConfigV1) ConvertAndCheck(c *HookConfig) error {
 		}
 		groupSnapshots[kubeCfg.Group] = append(groupSnapshots[kubeCfg.Group], kubeCfg.BindingName)
 	}
+	// Snapshots are addressed by a binding name, so names should not be repeated in a group.
+	for group, snapshots := range groupSnapshots {
+		if err := CheckIncludeSnapshots(c.OnKubernetesEvents, snapshots...); err != nil {
+			return fmt.Errorf("invalid kubernetes bindings in group '%s': %w", group, err)
+		}
+	}
 	newKubeEvents := make([]htypes.OnKubernetesEventConfig, 0)
 	for _, cfg := range c.OnKubernetesEvents {
 		if snapshots, ok := groupSnapshots[cfg.Group]; ok {
